@@ -178,6 +178,17 @@ class RepoIndex(object):
             self.namespace(mn)
         self._resolve_bases()
 
+    def virtual(self, name, source):
+        """Register an analyser-side module (oracle definitions written in Python);
+        it lives in the index only, never on disk under /repo."""
+        full = PKG + "." + name
+        if full in self.modules:
+            return self.modules[full]
+        m = ModuleInfo(full, "<oracle:%s>" % name, "<oracle:%s>" % name, False, source)
+        self.modules[full] = m
+        self.namespace(full)
+        return m
+
     # ---------------------------------------------------------------- lookup
     def module(self, name):
         if name not in self.modules:
@@ -203,7 +214,7 @@ class RepoIndex(object):
 
     def all_functions(self, skip=("aotools._version",)):
         for mn in sorted(self.modules):
-            if mn in skip:
+            if mn in skip or self.modules[mn].path.startswith("<oracle"):
                 continue
             for f in self.modules[mn].all_functions():
                 yield f
@@ -400,7 +411,7 @@ class RepoIndex(object):
         __init__, __repr__)."""
         out = []
         for mn in sorted(self.modules):
-            if mn == "aotools._version":
+            if mn == "aotools._version" or self.modules[mn].path.startswith("<oracle"):
                 continue
             m = self.modules[mn]
             for f in m.funcs.values():
